@@ -245,6 +245,42 @@ def deep_case(ctx, idx, rng):
     check_graph(ctx, nu, nv, edges, opt)
 
 
+def dead_end_ladder_case(ctx, idx, rng):
+    """Bounded progress on graphs with DEEP BRANCHING DEAD ENDS: a ladder of k layers with w alternative continuations per layer that ends blind, below a free
+    vertex that is served before the free vertex of a long chain forcing a long shortest augmenting path. A depth-first search that does not mark exhausted
+    vertices re-explores the blind subtree once per path into it (w^k steps); the logical-step budget 50 (U+V+E)^2 + 1000 counted by sys.monitoring is
+    polynomial. Optimum known in closed form (all of U but the root above the ladder)."""
+    import pytenet.bipartite_graph as bg
+    k = int(rng.integers(14, 31 if ctx.tier == 'quick' else 41))
+    w = int(rng.choice([2, 2, 3]))
+    x = lambda i, a: i * w + a
+    c = lambda i: k * w + i
+    r0, r1 = k * w + k, k * w + k + 1
+    f = k * w + k
+    edges = []
+    for i in range(k):
+        for a in range(w):
+            edges.append((x(i, a), x(i, a)))
+            if i + 1 < k:
+                edges += [(x(i, a), x(i + 1, b)) for b in range(w)]
+        edges.append((c(i), c(i)))
+        edges.append((c(i), c(i + 1) if i + 1 < k else f))
+    edges += [(r0, x(0, b)) for b in range(w)]
+    edges.append((r1, c(0)))
+    nu, nv = k * w + k + 2, k * w + k + 1
+    order = ('as-built', 'relabelled-V', 'roots-swapped')[(idx // 2) % 3]
+    if order == 'relabelled-V':
+        pv = rng.permutation(nv)
+        edges = [(u, int(pv[v])) for u, v in edges]
+    elif order == 'roots-swapped':
+        sw = {r0: r1, r1: r0}
+        edges = [(sw.get(u, u), v) for u, v in edges]
+    ctx.case(('dead-end-ladder', f'w{w}', 'k<20' if k < 20 else ('k<30' if k < 30 else 'k>=30'), order), sample={'k': k, 'w': w, 'nu': nu, 'nv': nv, 'order': order, 'edges': edges[:12]})
+    n = nu + nv + len(set(edges))
+    with monitor.StepCounter(bg) as sc:
+        check_graph(ctx, nu, nv, edges, nu - 1, budget=(sc, 50 * n * n + 1000))
+
+
 def insitu_case(ctx, idx, rng):
     """minimum_vertex_cover as driven by from_opchains while compiling real Hamiltonians and random chain lists."""
     seen = [0]
@@ -320,7 +356,7 @@ SPEC = {
              'thorough adds every edge set of the partitions with nu*nv > 16 up to 5x5 against Kuhn\'s algorithm; every ORDERED edge list with repetitions '
              '(length <= nu*nv+1) for shapes with nu*nv <= 4 and random duplicate-padded lists whose length hits nu*nv, nu*nv+-1, nu, nv, nu+nv; random graphs up to 60x60 '
              '(empty, sparse, dense, complete, duplicate edges, long augmenting paths) with a logical-step budget 50(U+V+E)^2+1000 counted by '
-             'sys.monitoring (function entries, loop back-edges, branches inside bipartite_graph.py); deep: paths with an unmatched root, ladders with one augmenting path through every vertex and caterpillars with 600..3000 vertices per side, relabelled / reordered (depth beyond the recursion limit of the interpreter); in situ: every per-site bipartite problem '
+             'sys.monitoring (function entries, loop back-edges, branches inside bipartite_graph.py); deep: paths with an unmatched root, ladders with one augmenting path through every vertex and caterpillars with 600..3000 vertices per side, relabelled / reordered (depth beyond the recursion limit of the interpreter); dead-end ladders: 14..40 layers with 2..3 alternative continuations per layer ending blind, under the same polynomial step budget (a search that re-explores exhausted vertices needs w^k steps); in situ: every per-site bipartite problem '
              'raised by from_opchains for built-in/molecular Hamiltonians and random chain lists. Non-trivial = at least one edge and more '
              'than one vertex pair; distinct = (shape or density class, size class, orientation, matching-size class).'),
     'deciding': ['matching.repeated-call-on-same-solver', 'matching.maximum', 'matching.subset-of-edges', 'matching.vertex-disjoint', 'cover.touches-every-edge', 'cover.minimum',
@@ -336,6 +372,7 @@ SPEC = {
         Workload('random', random_case, quick=600, thorough=100000),
         Workload('staircase', staircase_case, quick=400, thorough=60000),
         Workload('deep', deep_case, quick=12, thorough=240),
+        Workload('dead-end-ladders', dead_end_ladder_case, quick=12, thorough=360),
         Workload('insitu', insitu_case, quick=60, thorough=6000),
         Workload('suite-soak', soak_case, quick=0, thorough=1, shardable=False),
     ],
